@@ -112,6 +112,23 @@ class Checker:
             c["ties_observed"] += 1
         if light:       # very long histories: the set comparisons below are done on a subset of the arrivals
             return
+        # chain states obtained EARLIER in this history (the node keeps them: the state before a block, the last validated
+        # state it falls back to, the miner's snapshot) still report the head, tips and blocks they reported then
+        if len(ids) == 2 or getattr(self, "_earlier_n", 0) >= len(ids):
+            self._earlier = []
+        self._earlier_n = len(ids)
+        earlier = getattr(self, "_earlier", [])
+        sample = earlier if len(earlier) <= 10 else earlier[-4:] + [earlier[(new * 7 + k * 13) % len(earlier)] for k in range(4)]
+        for (old_cs, old_head, old_tips, old_n, arrival) in sample:
+            c["earlier_states_rechecked"] = c.get("earlier_states_rechecked", 0) + 1
+            if old_cs.current_chain_hash != old_head or set(old_cs.heads.keys()) != old_tips or len(old_cs.block_by_hash) != old_n:
+                self.v("earlier-chain-state-changed-by-a-later-arrival", "the chain state obtained after arrival %d reported tips %s; after "
+                       "arrival %d the SAME state object reports tips %s (head unchanged: %s, %d blocks then, %d now); parents=%s" % (
+                           arrival, sorted(idx.get(k, -1) for k in old_tips), new, sorted(idx.get(k, -1) for k in old_cs.heads.keys()),
+                           old_cs.current_chain_hash == old_head, old_n, len(old_cs.block_by_hash), model.parent[1:]), w)
+                break
+        earlier.append((cs, cs.current_chain_hash, set(cs.heads.keys()), len(cs.block_by_hash), new))
+        self._earlier = earlier[-60:]
         # tips
         tips = model.tips()
         c["max_tips_seen"] = max(c["max_tips_seen"], len(tips))
